@@ -134,10 +134,13 @@ def run(ctx):
     run_mod = prog.mod('run')
     for qual in ('single', 'main'):
         fn = run_mod.func(qual)
+        mvars = {norm(s_.targets[0]) for s_ in walk_no_nested(fn) if isinstance(s_, ast.Assign)
+                 and isinstance(s_.value, ast.Call)
+                 and call_name(s_.value) in ('MolecularContainer', 'read_molecule_file')}
         seq = [last_attr(c) for c in calls_in(fn, nested=False)
-               if isinstance(c.func, ast.Attribute) and norm(c.func.value) == 'my_molecule']
+               if isinstance(c.func, ast.Attribute) and norm(c.func.value) in mvars]
         ctx.ob('C02.R1', 'driver:%s:report-follows-calculation' % qual,
-               seq == ['calculate_pka', 'write_pka'],
+               seq == ['calculate_pka', 'write_pka'] and len(mvars) == 1,
                'run.%s calls calculate_pka and then only write_pka on the molecule (%s)'
                % (qual, seq), run_mod, fn)
     # reporters have no dirtying effect
@@ -217,9 +220,19 @@ def run(ctx):
            'row i prints entry i of each of the three determinant types', gmod,
            cell[0] if cell else ds)
     dfs = gmod.func('Group.get_determinant_for_string')
-    src = norm(dfs)
-    ok = 'self.determinants[type_][number]' in src and 'determinant.value, determinant.label' in src \
-        and 'number >= len(self.determinants[type_])' in src
+    dparams = [a.arg for a in dfs.args.args]
+    ok = False
+    if len(dparams) == 3:
+        tp, num = dparams[1], dparams[2]
+        dd = [s_ for s_ in walk_no_nested(dfs) if isinstance(s_, ast.Assign)
+              and norm(s_.value) == 'self.determinants[%s][%s]' % (tp, num)]
+        short_ = any(isinstance(n, ast.If) and norm(n.test).replace(' ', '') ==
+                     '%s>=len(self.determinants[%s])' % (num, tp) for n in walk_no_nested(dfs))
+        if len(dd) == 1:
+            dv = norm(dd[0].targets[0])
+            fm = [c for c in calls_in(dfs, nested=False) if last_attr(c) == 'format'
+                  and [norm(a) for a in c.args] == [dv + '.value', dv + '.label']]
+            ok = len(fm) == 1 and short_
     ctx.ob('C02.R4', 'determinant-cell', ok,
            'a cell prints value and label of determinant [type][row], or the placeholder when '
            'the list is shorter', gmod, dfs)
@@ -231,8 +244,18 @@ def run(ctx):
            'the pKa column of the determinant table prints pka_value with two decimals', gmod,
            pk[0] if pk else ds)
     ss = gmod.func('Group.get_summary_string')
-    fmts = [concat_str(s.value) for s in walk_no_nested(ss) if isinstance(s, ast.Assign)
-            and norm(s.targets[0]) == 'fmt']
+    fmts = []
+    for r_ in walk_no_nested(ss):
+        if isinstance(r_, ast.Return) and isinstance(r_.value, ast.Call) \
+                and last_attr(r_.value) == 'format':
+            base = r_.value.func.value
+            txt = concat_str(base)
+            if txt is None and isinstance(base, ast.Name):
+                for s_ in walk_no_nested(ss):
+                    if isinstance(s_, ast.Assign) and norm(s_.targets[0]) == base.id:
+                        txt = concat_str(s_.value)
+            if txt and 'pka_value' in txt:
+                fmts.append(txt)
     ok = False
     if len(fmts) == 1 and fmts[0]:
         ff = format_fields(fmts[0])
